@@ -229,7 +229,8 @@ Definition run_c16_builder (args : list sx) : sx :=
   | _ => None end).
 
 (* the scripted (one action per critical section) kinds; C16_Conc.v adds the kinds that
-   judge free-running observations and the two-step builder, and defines c16_table *)
+   judge free-running observations and the two-step builder (c16_conc_table); C16_Mw.v adds the call sites and
+   the consumers and defines c16_table *)
 Definition c16_seq_table : list (bytes * (list sx -> sx)) :=
   [ (bs "c16.tracer", run_c16_tracer);
     (bs "c16.builder", run_c16_builder) ].
